@@ -8,49 +8,51 @@ From NQ Require Import Proofs.SdkRegProofs Proofs.SdkFrameProofs.
 Import ListNotations.
 
 (* every completed operation leaves the set of active registers as it found it *)
-Theorem C14_active_restored : forall fd s st c st',
+(* `plain`: the registers are chosen by the SDK (no loop_register=..., no builder.new_register();
+   those are covered by the correspondence and by the behavioural oracle of the check only) *)
+Theorem C14_active_restored : forall fd s st c st', plain s = true ->
   lower_stmt fd s st = Ok (c, st') -> l_act st' = l_act st.
 Proof. exact active_restored. Qed.
 
 (* any sequence of operations, of any length, flushed anywhere: nothing is active at top level *)
-Theorem C14_active_reachable : forall fd p bs st,
+Theorem C14_active_reachable : forall fd p bs st, bplain p = true ->
   lower_prog fd p = Ok (bs, st) -> l_act st = repeat false NREGS.
 Proof. exact active_reachable. Qed.
 
 (* registers needed while compiling an operation: bounded by its nesting depth *)
-Theorem C14_peak_bound : forall fd s st c st',
+Theorem C14_peak_bound : forall fd s st c st', plain s = true ->
   lower_stmt fd s st = Ok (c, st') ->
   l_peak st' <= Nat.max (l_peak st) (count_true (l_act st) + need s) /\
   need s <= 3 * depth s + 4 /\ (noepr s = true -> need s <= depth s + 2).
 Proof. exact peak_bound. Qed.
 
-Theorem C14_program_peak : forall fd p bs st,
+Theorem C14_program_peak : forall fd p bs st, bplain p = true ->
   lower_prog fd p = Ok (bs, st) -> l_peak st <= Nat.max (bneed p) 1 /\ bneed p <= 3 * bdepth p + 4.
 Proof. exact lower_prog_peak. Qed.
 
 (* the number of completed operations never matters: a program whose deepest statement
    fits compiles, whatever its length and wherever it flushes *)
-Theorem C14_never_out_of_registers : forall fd p,
+Theorem C14_never_out_of_registers : forall fd p, bplain p = true ->
   3 * bdepth p + 4 <= NREGS -> lower_prog fd p <> Err EOutOfRegs.
 Proof. exact lower_prog_no_oor. Qed.
 
-Theorem C14_never_out_of_registers_noepr : forall fd p,
+Theorem C14_never_out_of_registers_noepr : forall fd p, bplain p = true ->
   bnoepr p = true -> bdepth p + 2 <= NREGS -> lower_prog fd p <> Err EOutOfRegs.
 Proof. exact lower_prog_no_oor_noepr. Qed.
 
-Theorem C14_statement_compiles : forall fd s st,
+Theorem C14_statement_compiles : forall fd s st, plain s = true ->
   List.length (l_act st) = NREGS -> count_true (l_act st) + need s <= NREGS ->
   lower_stmt fd s st <> Err EOutOfRegs.
 Proof. exact lower_no_oor. Qed.
 
 (* temporaries are chosen outside the active set ... *)
-Theorem C14_lower_frame : forall fd s st c st',
+Theorem C14_lower_frame : forall fd s st c st', plain s = true ->
   lower_stmt fd s st = Ok (c, st') -> forall k, In k (sws c) -> nth_error (l_act st) k = Some false.
 Proof. exact lower_frame. Qed.
 
 (* ... and everything live is in it: running the code of a nested statement changes no
    loop variable of an enclosing operation *)
-Theorem C14_live_values_preserved : forall fd s st c st' m m',
+Theorem C14_live_values_preserved : forall fd s st c st' m m', plain s = true ->
   lower_stmt fd s st = Ok (c, st') -> lv_active st -> sx c m m' ->
   forall v r, In (v, r) (l_lv st) -> m_reg m' (Rg BR r) = m_reg m (Rg BR r).
 Proof. exact live_values_preserved. Qed.
@@ -71,23 +73,22 @@ Definition ex_round : list stmt :=
   [ SIf CEz false (VFut 0 (IxC 0)) (VInt 0) (blk [SGate GH 0]);
     SIf CNz true (VFut 0 (IxC 1)) (VInt 0) (blk [SGate GX 0]);
     SIf CLt true (VFut 0 (IxC 0)) (VFut 0 (IxC 1)) (blk [SGate GZ 0]);
-    SLoop false 0 0 3 1 (blk [SLoop true 1 0 2 1 (blk [SFutAdd 0 (IxV 0) (AFut 0 (IxV 1)) (Some 5%Z)])]);
+    SLoop false 0 None 0 3 1 (blk [SLoop true 1 None 0 2 1 (blk [SFutAdd 0 (IxV 0) (AFut 0 (IxV 1)) (Some 5%Z)])]);
     SForeach true 2 0 (blk [SIf CEq false (VFut 0 (IxV 2)) (VInt 1) (blk [SGate GH 0])]);
     SLoopUntil 3 4 (blk [SMeasFut 0 true 0 (IxC 2)]) (VFut 0 (IxC 2)) 0 (blk [SGate GX 0]);
-    SMeasReg 0 true 0;
     SEpr ERecvCorr BNil;
     SEpr (EPost true 2) (blk [SFutAdd 0 (IxC 0) (AInt 1) None]);
     SEpr (ECtx 3) (blk [SIf CGe false (VFut 0 (IxC 0)) (VFut 0 (IxC 1)) (blk [SGate GH 0])]);
     SFlush ].
 
 Definition ex_prog : block :=
-  blk ([SNewArray 0 3 (Some [Some 0%Z; Some 1%Z; Some 2%Z]); SNewQubit 0]
+  blk ([SNewArray 0 3 (Some [Some 0%Z; Some 1%Z; Some 2%Z]); SNewQubit 0; SMeasReg 0 true 0]
        ++ List.concat (repeat ex_round 60)).
 
 Example C14_nonvacuous :
   match lower_prog false ex_prog with
   | Ok (bs, st) => Nat.eqb (List.length bs) 60 && Nat.eqb (count_true (l_act st)) 0 && Nat.leb (l_peak st) 8
-                   && Nat.leb (bdepth ex_prog) 2
+                   && Nat.leb (bdepth ex_prog) 2 && bplain ex_prog
   | Err _ => false
   end = true.
 Proof. vm_compute. reflexivity. Qed.
